@@ -142,3 +142,34 @@ func vTorn(packed bool) {
 
 func VH_C09_torn_write()        { vTorn(false) }
 func VH_C09_torn_write_packed() { vTorn(true) }
+
+// ---- two goroutines (vPar: every interleaving of their synchronisation operations) ----
+
+// Close races with a Bootstrap request: both return, nothing stays locked, no deadlock
+func VH_C09_par_close_vs_bootstrap() {
+	t := &vTransport{faultNewMessage: true, faultSend: true}
+	c := vNewConn(t, nil)
+	var cerr error
+	vPar(func() {
+		cerr = c.Close()
+	}, func() {
+		bc := c.Bootstrap(context.Background())
+		vAssert(bc != nil, "C09.par.bootstrap-returns")
+	})
+	vReach("joined")
+	vAssert(cerr == nil, "C09.par.close-ok")
+	vQuiescent(c, "C09.par.close-vs-bootstrap")
+	vAssert(t.closes == 1, "C09.par.transport-closed-once")
+}
+
+// two concurrent Close calls: exactly one shuts the connection down, both return
+func VH_C09_par_close_vs_close() {
+	t := &vTransport{}
+	c := vNewConn(t, nil)
+	var e1, e2 error
+	vPar(func() { e1 = c.Close() }, func() { e2 = c.Close() })
+	vReach("joined")
+	vAssert((e1 == nil) != (e2 == nil), "C09.par.exactly-one-close-succeeds")
+	vQuiescent(c, "C09.par.close-vs-close")
+	vAssert(t.closes == 1, "C09.par.close-close.transport-closed-once")
+}
